@@ -329,7 +329,7 @@ def concrete_family_replay(m, label, mode, N, tolf):
 
 def make_levelB(N, tol, ratio, D):
     tolf = Fraction(tol)
-    ratio = Fraction(ratio)
+    ratio = Fraction(float(Fraction(ratio)))  # the double the constructor receives (19/10 is not representable)
 
     def build(ctx):
         st = StateManager(n_dim=1)
